@@ -3,6 +3,7 @@ unpaired" must test exactly the index that the pairing code then reads.  A guard
 (e.g. `pos + 1 < len` before reading `src[pos]`) makes a valid pair at the end of a buffer look unpaired."""
 from mirlib import *
 from ranges import *
+import r_surr
 
 HI = ISet.of((0xD800, 0xDBFF))
 
@@ -54,11 +55,14 @@ def run(rep, f, c, rule, want=lambda n: True):
             continue
         preds = [p for p in scalar_predicates(f, b) if p['bits'] in (16, 32) and p['true_set'] is not None]
         his = []
+        ctxs = r_surr.contexts(f, b, preds) if preds else {}
         for p in preds:
-            ts = p['true_set']
-            if ts == HI:
+            # the test in its context (see R-SURR): `u < 0xDC00` under an is-surrogate test is a high-surrogate test
+            ctx = ctxs[id(p)]
+            ts, fs = p['true_set'] & ctx, ctx - p['true_set']
+            if ts == HI and fs:
                 his.append((p, True))
-            elif ts.complement(0, p['N'] - 1) == HI:
+            elif fs == HI and ts:
                 his.append((p, False))
         if not his:
             continue
